@@ -103,7 +103,7 @@ Definition host_handle (now : Z) (h : hostst) (ev : event unit) : hostst * list 
   | EvTimer tid =>
       if (tid =? T_REG)%N then
         (set_host h (h_name h) (h_prev h) true (h_suffix h),
-         (if bytes_eqb (h_name h) (h_prev h) then [] else [ESig OBJ SIG_hostnameChanged (PBytes (Some (h_name h)))])
+         (if hostname_announce (Some (h_name h)) (Some (h_prev h)) then [ESig OBJ SIG_hostnameChanged (PBytes (Some (h_name h)))] else [])
          ++ [EStart T_REB rebroadcast_ms])
       else on_rebroadcast h
   | EvApi _ => (h, [])
